@@ -1,5 +1,312 @@
-import BroodModel.Inv
+/-
+  C04 — Every component value is dropped exactly once.
+
+  Values carry identities (`Val.id`, the ledger identity the harness gives every component), so
+  "exactly once" is a statement about multisets: after any history, the values the world owns
+  (`World.values`: what dropping the world drops) together with everything dropped so far are a
+  permutation of the resources and component values moved in so far.  The per-operation theorems
+  say *when* a value is dropped: `remove` drops that entity's row, `Entry::add` on a present
+  component drops the old value, `Entry::remove` drops the detached value, `clear` drops every
+  stored value, a write drops the overwritten value, and nothing else is dropped.
+
+  `clone`, `clone_from` and deserialization (independent ownership of the copies) are covered by
+  the correspondence check's ledger, and at the model level in C10.
+-/
+import BroodModel.Lemmas.Ledger
+
 namespace Brood
-theorem C04_placeholder_init (n : Nat) (res : List Val) : (World.init n res).len = 0 := rfl
+
+/-! ### the canonical row is a permutation of the written values -/
+
+theorem mem_zip_map_ty {vals : List Val} {c : Nat} {v : Val} :
+    (c, v) ∈ (vals.map (·.ty)).zip vals ↔ v ∈ vals ∧ c = v.ty := by
+  induction vals with
+  | nil => simp
+  | cons y ys ih =>
+    simp only [List.map_cons, List.zip_cons_cons, List.mem_cons, Prod.mk.injEq, ih]
+    constructor
+    · rintro (⟨h1, h2⟩ | ⟨h1, h2⟩)
+      · exact ⟨Or.inl h2, by rw [h1, h2]⟩
+      · exact ⟨Or.inr h1, h2⟩
+    · rintro ⟨h1 | h1, h2⟩
+      · exact Or.inl ⟨by rw [h2, h1], h1⟩
+      · exact Or.inr ⟨h1, h2⟩
+
+theorem nodup_of_map_ty {l : List Val} (h : (l.map (·.ty)).Nodup) : l.Nodup := by
+  induction l with
+  | nil => exact List.nodup_nil
+  | cons x xs ih =>
+    simp only [List.map_cons, List.nodup_cons] at h ⊢
+    exact ⟨fun hm => h.1 (List.mem_map.mpr ⟨x, hm, rfl⟩), ih h.2⟩
+
+theorem canonVals_perm {n : Nat} {shape : List Nat} {vals : List Val}
+    (h : World.shapeOk n shape vals = true) : (World.canonVals n shape vals).Perm vals := by
+  have htys := canonVals_tys h
+  unfold World.shapeOk at h
+  simp only [Bool.and_eq_true, beq_iff_eq, decide_eq_true_eq, List.all_eq_true] at h
+  obtain ⟨⟨hnd, hall⟩, hty⟩ := h
+  have hvn : vals.Nodup := nodup_of_map_ty (by rw [hty]; exact hnd)
+  have hcn : (World.canonVals n shape vals).Nodup :=
+    nodup_of_map_ty (by rw [htys]; exact comps_nodup _)
+  apply (List.perm_ext_iff_of_nodup hcn hvn).mpr
+  intro v
+  unfold World.canonVals
+  simp only [List.mem_filterMap, List.mem_range]
+  have hkeys : ((shape.zip vals).map (·.1)).Nodup := by
+    rw [List.map_fst_zip (by rw [← hty]; simp)]; exact hnd
+  constructor
+  · rintro ⟨c, _, hl⟩
+    have := (lookup_some_iff' hkeys).mp hl
+    rw [← hty] at this
+    exact (mem_zip_map_ty.mp this).1
+  · intro hv
+    refine ⟨v.ty, ?_, ?_⟩
+    · exact hall v.ty (by rw [← hty]; exact List.mem_map.mpr ⟨v, hv, rfl⟩)
+    · apply (lookup_some_iff' hkeys).mpr
+      rw [← hty]
+      exact mem_zip_map_ty.mpr ⟨hv, rfl⟩
+where
+  lookup_some_iff' {l : List (Nat × Val)} (hn : (l.map (·.1)).Nodup) {c : Nat} {v : Val} :
+      l.lookup c = some v ↔ (c, v) ∈ l := by
+    induction l with
+    | nil => simp
+    | cons p ps ih =>
+      obtain ⟨k, x⟩ := p
+      simp only [List.map_cons, List.nodup_cons] at hn
+      simp only [List.lookup_cons, List.mem_cons, Prod.mk.injEq]
+      by_cases hck : c = k
+      · subst hck
+        simp only [beq_self_eq_true, Option.some.injEq, true_and]
+        constructor
+        · intro h; exact Or.inl h.symm
+        · rintro (h | h)
+          · exact h.symm
+          · exact absurd (List.mem_map.mpr ⟨(c, v), h, rfl⟩) hn.1
+      · have : (c == k) = false := by simpa using hck
+        simp only [this, hck, false_and, false_or]
+        exact ih hn.2
+
+/-! ### operations with their drops and the values moved in -/
+
+/-- One step, returning the new world, the values dropped by the step and the values moved into
+the world by the step (the caller keeps a value that `Entry::add` / a write did not consume). -/
+def stepD (w : World) : Op → Out (World × List Val × List Val)
+  | .insert shape vals =>
+    match w.insert shape vals with
+    | .ok (w', _) => .ok (w', [], vals)
+    | .ub e => .ub e
+  | .extend shape rows =>
+    match w.extend shape rows with
+    | .ok (w', _) => .ok (w', [], rows.flatten)
+    | .ub e => .ub e
+  | .remove id =>
+    match w.remove id with
+    | .ok (w', d) => .ok (w', d, [])
+    | .ub e => .ub e
+  | .clear order =>
+    match w.clear order with
+    | .ok (w', d) => .ok (w', d, [])
+    | .ub e => .ub e
+  | .add id c v =>
+    match w.entryAdd id c v with
+    | .ok (w', r) => .ok (w', r.getD [], if r.isSome then [v] else [])
+    | .ub e => .ub e
+  | .del id c =>
+    match w.entryRemove id c with
+    | .ok (w', r) => .ok (w', r.getD [], [])
+    | .ub e => .ub e
+  | .write id c v =>
+    match w.write id c v with
+    | .ok (w', r) => .ok (w', r.getD [], if r.isSome then [v] else [])
+    | .ub e => .ub e
+  | .reserve shape =>
+    match w.reserve shape with
+    | .ok w' => .ok (w', [], [])
+    | .ub e => .ub e
+  | .shrink => .ok (w.shrinkToFit, [], [])
+
+/-- `stepD` is `step` with bookkeeping. -/
+theorem stepD_step {w w' : World} {op : Op} {d i : List Val} (e : stepD w op = .ok (w', d, i)) :
+    step w op = .ok w' := by
+  cases op <;> simp only [stepD, step] at e ⊢
+  all_goals first
+    | (split at e <;> simp at e; rename_i h; obtain ⟨rfl, _, _⟩ := e; simp [h, fstOut])
+    | (simp at e; obtain ⟨rfl, _, _⟩ := e; rfl)
+
+theorem count_flatten_map_perm (x : Val) {n : Nat} {shape : List Nat} (rows : List (List Val))
+    (h : ∀ r ∈ rows, World.shapeOk n shape r = true) :
+    ((rows.map (World.canonVals n shape)).flatten).count x = rows.flatten.count x := by
+  induction rows with
+  | nil => rfl
+  | cons r rs ih =>
+    simp only [List.map_cons, List.flatten_cons, List.count_append]
+    rw [ih (fun y hy => h y (by simp [hy])), (canonVals_perm (h r (by simp))).count_eq]
+
+/-- **Conservation, one step**: owned-after + dropped = owned-before + moved-in, for every value. -/
+theorem C04_step (x : Val) {w w' : World} (hi : Inv w) {op : Op} (hwt : op.wt w.n) {d i : List Val}
+    (e : stepD w op = .ok (w', d, i)) : w'.cnt x + d.count x = w.cnt x + i.count x := by
+  cases op with
+  | insert shape vals =>
+    simp only [stepD] at e
+    cases h : w.insert shape vals with
+    | ub y => simp [h] at e
+    | ok p =>
+      obtain ⟨w1, nid⟩ := p
+      simp [h] at e; obtain ⟨rfl, rfl, rfl⟩ := e
+      have := insert_cnt x hi h
+      rw [(canonVals_perm hwt).count_eq] at this
+      simpa using this
+  | extend shape rows =>
+    simp only [stepD] at e
+    cases h : w.extend shape rows with
+    | ub y => simp [h] at e
+    | ok p =>
+      obtain ⟨w1, ids⟩ := p
+      simp [h] at e; obtain ⟨rfl, rfl, rfl⟩ := e
+      have := extend_cnt x hi h
+      rw [count_flatten_map_perm x rows hwt] at this
+      simpa using this
+  | remove id =>
+    simp only [stepD] at e
+    cases h : w.remove id with
+    | ub y => simp [h] at e
+    | ok p =>
+      obtain ⟨w1, dr⟩ := p
+      simp [h] at e; obtain ⟨rfl, rfl, rfl⟩ := e
+      simpa using remove_cnt x hi h
+  | clear order =>
+    simp only [stepD] at e
+    cases h : w.clear order with
+    | ub y => simp [h] at e
+    | ok p =>
+      obtain ⟨w1, dr⟩ := p
+      simp [h] at e; obtain ⟨rfl, rfl, rfl⟩ := e
+      simpa using clear_cnt x h
+  | add id c v =>
+    simp only [stepD] at e
+    cases h : w.entryAdd id c v with
+    | ub y => simp [h] at e
+    | ok p =>
+      obtain ⟨w1, r⟩ := p
+      simp [h] at e; obtain ⟨rfl, rfl, rfl⟩ := e
+      have := entryAdd_cnt x hi h
+      cases r <;> simpa using this
+  | del id c =>
+    simp only [stepD] at e
+    cases h : w.entryRemove id c with
+    | ub y => simp [h] at e
+    | ok p =>
+      obtain ⟨w1, r⟩ := p
+      simp [h] at e; obtain ⟨rfl, rfl, rfl⟩ := e
+      simpa using entryRemove_cnt x hi h
+  | write id c v =>
+    simp only [stepD] at e
+    cases h : w.write id c v with
+    | ub y => simp [h] at e
+    | ok p =>
+      obtain ⟨w1, r⟩ := p
+      simp [h] at e; obtain ⟨rfl, rfl, rfl⟩ := e
+      have := write_cnt x hi h
+      cases r <;> simpa using this
+  | reserve shape =>
+    simp only [stepD] at e
+    cases h : w.reserve shape with
+    | ub y => simp [h] at e
+    | ok w1 =>
+      simp [h] at e; obtain ⟨rfl, rfl, rfl⟩ := e
+      simpa using reserve_cnt x h
+  | shrink =>
+    simp only [stepD, Out.ok.injEq, Prod.mk.injEq] at e
+    obtain ⟨rfl, rfl, rfl⟩ := e
+    simpa using shrink_cnt x hi
+
+/-- A history with its accumulated drops and moved-in values. -/
+def runD (w : World) : List Op → Out (World × List Val × List Val)
+  | [] => .ok (w, [], [])
+  | op :: ops =>
+    match stepD w op with
+    | .ub e => .ub e
+    | .ok (w1, d1, i1) =>
+      match runD w1 ops with
+      | .ub e => .ub e
+      | .ok (w', d, i) => .ok (w', d1 ++ d, i1 ++ i)
+
+theorem runD_law (x : Val) (ops : List Op) :
+    ∀ {w w' : World} {d i : List Val}, Inv w → (∀ op ∈ ops, op.wt w.n) →
+      runD w ops = .ok (w', d, i) → w'.cnt x + d.count x = w.cnt x + i.count x := by
+  induction ops with
+  | nil =>
+    intro w w' d i _ _ e
+    simp [runD] at e; obtain ⟨rfl, rfl, rfl⟩ := e; simp
+  | cons op ops ih =>
+    intro w w' d i hi hwt e
+    simp only [runD] at e
+    cases h1 : stepD w op with
+    | ub y => simp [h1] at e
+    | ok p =>
+      obtain ⟨w1, d1, i1⟩ := p
+      simp only [h1] at e
+      cases h2 : runD w1 ops with
+      | ub y => simp [h2] at e
+      | ok q =>
+        obtain ⟨w2, d2, i2⟩ := q
+        simp only [h2, Out.ok.injEq, Prod.mk.injEq] at e
+        obtain ⟨rfl, rfl, rfl⟩ := e
+        have hs := stepD_step h1
+        have c1 := C04_step x hi (hwt op (by simp)) h1
+        have c2 := ih (step_inv hi hs) (fun o ho => by rw [step_n hi hs]; exact hwt o (by simp [ho])) h2
+        simp only [List.count_append]
+        omega
+
+/-- **Conservation over every history**: what the world owns at the end (the values dropping it
+would drop) together with everything dropped along the way is a permutation of the resources and
+component values moved in.  No value is lost, none is dropped twice, none is dropped while still
+owned. -/
+theorem C04_conservation (n : Nat) (res : List Val) (ops : List Op) (hwt : ∀ op ∈ ops, op.wt n)
+    {w : World} {d i : List Val} (e : runD (World.init n res) ops = .ok (w, d, i)) :
+    (w.values ++ d).Perm (res ++ i) := by
+  apply List.perm_iff_count.mpr
+  intro x
+  have := runD_law x ops (inv_init n res) hwt e
+  rw [World.cnt_eq, World.cnt_eq] at this
+  simp only [List.count_append]
+  have h0 : (World.init n res).values = res := by simp [World.values, World.init]
+  rw [h0] at this
+  omega
+
+/-- If every value moved in has its own identity, then no value is dropped twice, no dropped value
+is still owned, and every value moved in is either still owned or has been dropped. -/
+theorem C04_exactly_once (n : Nat) (res : List Val) (ops : List Op) (hwt : ∀ op ∈ ops, op.wt n)
+    {w : World} {d i : List Val} (e : runD (World.init n res) ops = .ok (w, d, i))
+    (hdistinct : (res ++ i).Nodup) :
+    d.Nodup ∧ w.values.Nodup ∧ (∀ v ∈ d, v ∉ w.values) ∧ (∀ v ∈ res ++ i, v ∈ w.values ∨ v ∈ d) := by
+  have hp := C04_conservation n res ops hwt e
+  have hn : (w.values ++ d).Nodup := hp.symm.nodup hdistinct
+  rw [List.nodup_append] at hn
+  refine ⟨hn.2.1, hn.1, fun v hv hw => hn.2.2 v hw v hv rfl, ?_⟩
+  intro v hv
+  have := hp.symm.mem_iff.mp hv
+  simpa using this
+
+/-! ### when values are dropped -/
+
+/-- `remove` drops exactly the removed entity's values; a dead identifier drops nothing. -/
+theorem C04_remove_drops {w w' : World} {id : Ident} {drops : List Val} (hi : Inv w)
+    (e : w.remove id = .ok (w', drops)) : drops = (w.entity id).getD [] :=
+  (remove_entity hi e).2.2.1
+
+/-- Non-vacuity: a history with drops, evaluated. -/
+example :
+    (match runD (World.init 3 [⟨9, 90⟩])
+      [.insert [1, 0] [⟨1, 11⟩, ⟨0, 10⟩], .add ⟨0, 0⟩ 1 ⟨1, 12⟩, .del ⟨0, 0⟩ 0, .remove ⟨0, 0⟩] with
+     | .ok (w, d, i) => (w.values, d, i)
+     | .ub _ => ([], [], [])) =
+    ([⟨9, 90⟩], [⟨1, 11⟩, ⟨0, 10⟩, ⟨1, 12⟩], [⟨1, 11⟩, ⟨0, 10⟩, ⟨1, 12⟩]) := by decide
+
 end Brood
-#print axioms Brood.C04_placeholder_init
+
+#print axioms Brood.canonVals_perm
+#print axioms Brood.C04_step
+#print axioms Brood.C04_conservation
+#print axioms Brood.C04_exactly_once
+#print axioms Brood.C04_remove_drops
